@@ -206,9 +206,12 @@ def _state(run, F, PV, D, V2, spec):
     got = {}
     for s in stores:
         for sn in g.nodes_of(s):
-            got[norm(s.targets[0].slice)] = ({_strip(x) for x in PV.expand_consistent(gs, D, s.value, sn)}, s, sn)
+            kx = {_strip(x) for x in PV.expand_consistent(gs, D, s.targets[0].slice, sn)}
+            # the hash entries are stored under the dict key the loop is at (whatever the loop variable is called)
+            kn = "key" if kx == {"ELEM(self.GST.HASH_VALUES)"} else norm(s.targets[0].slice)
+            got[kn] = ({_strip(x) for x in PV.expand_consistent(gs, D, s.value, sn)}, s, sn)
     OFF = 3
-    hv = "ELEM1(self.GST.HASH_VALUES.items())"
+    hv = "self.GST.HASH_VALUES[ELEM(self.GST.HASH_VALUES)]"
     send_h = f"self._send_command(self.CMD.GET_STATE, bytes([self.OP.GST.HASH, {hv}]))"
     exp = {
         "key": {_strip(f"{send_h}[self.OFF.DATA + 1:].hex()")},
@@ -228,9 +231,9 @@ def _state(run, F, PV, D, V2, spec):
               message=f"get_blockchain_state stores {sorted(got)}")
     # the loop key is the dict key paired with the selector sent
     loops = [n for n in ast.walk(gs.node) if isinstance(n, ast.For)]
-    run.check("R2", len(loops) == 1 and norm(loops[0].iter) == "self.GST.HASH_VALUES.items()" and norm(loops[0].target) in ("(key, hash_cmd)",),
-              "hash loop iterates (key, selector) pairs", key="get_blockchain_state|loop", where=gs.loc(),
-              message="the hash loop no longer iterates HASH_VALUES.items() as (key, selector)")
+    run.check("R2", len(loops) == 1 and norm(loops[0].iter) == "self.GST.HASH_VALUES" and isinstance(loops[0].target, ast.Name),
+              "hash loop iterates the HASH_VALUES table (key -> selector)", key="get_blockchain_state|loop", where=gs.loc(),
+              message="the hash loop no longer iterates the HASH_VALUES table (key, selector)")
     run.rule("R4", "Answers are validated before use (dominating the store): hash - op == GST.HASH, echoed id == selector, "
              "32 bytes; difficulty - op == GST.DIFF; flags - op == GST.FLAGS and 3 bytes.")
     send_d = "self._send_command(self.CMD.GET_STATE, bytes([self.OP.GST.DIFF]))"
